@@ -45,9 +45,9 @@ class LinearOperator(EditableModule):
 
             cls._implementation_checked = True
 
-            if not cls._is_mv_implemented:
-                raise RuntimeError("LinearOperator must have at least _mv(self) "
-                                   "method implemented")
+        if not cls._is_mv_implemented:
+            raise RuntimeError("LinearOperator must have at least _mv(self) "
+                               "method implemented")
         return super(LinearOperator, cls).__new__(cls)
 
     @classmethod
